@@ -690,3 +690,98 @@ Proof.
     + destruct (read_instrs n (skipn 16 l)) as [e2|r2] eqn:E2; [|discriminate]. intros Hq. inversion Hq; subst e2. eapply IH; eauto.
   - apply (read_ser_instrs_inv _ _ _ _ Hib) in Eri. subst dis. inversion Hr; subst. reflexivity.
 Qed.
+
+(* ---------- the end-to-end theorem ---------- *)
+
+Lemma getn_repeat0 n i : getn (repeat 0 n) i = 0.
+Proof.
+  unfold getn. generalize (N.to_nat i). clear i. induction n as [|n IH]; intros [|k]; cbn; auto.
+Qed.
+
+Lemma Rv_initial scf : Rv scf (mkS [] 1000) conn_loaded.
+Proof.
+  unfold Rv. split; [apply regs0_wf|]. split; [|split; reflexivity].
+  intros x r Hx Hvc. cbn [s_env env_get].
+  destruct (slot r) as [[f j]|] eqn:Es; [|unfold var_class in Hvc; rewrite Es in Hvc; discriminate].
+  rewrite (read_reg_slot _ _ _ _ _ _ Es). unfold rd, conn_loaded. cbn [c_regs]. destruct f; cbn [file_of regs0 r_report r_control r_impl r_tmp r_local]; apply getn_repeat0.
+Qed.
+
+Definition inputs_bounded (ins : list input) : Prop := Forall (fun i : input => prims_bounded (fst i)) ins.
+
+Theorem compile_correct_end_to_end src ins :
+  in_c01_scope src = true -> inputs_bounded ins -> agrees src ins = Some true.
+Proof.
+  unfold in_c01_scope, agrees. intros Hscope Hins.
+  destruct (load src 77) as [[[[d3 p] tys] scF]|] eqn:Hl; [|discriminate Hscope].
+  apply andb_true_iff in Hscope. destruct Hscope as [Hscope Hleg]. apply andb_true_iff in Hscope. destruct Hscope as [Hwt Hcl].
+  apply negb_true_iff in Hleg. apply negb_true_iff in Hcl.
+  (* unfold the loading *)
+  unfold load in Hl.
+  destruct (utf8_decode src) as [cps|] eqn:Hu; [|discriminate Hl].
+  destruct (new_with_scope cps) as [[[evs sc0]| |]|] eqn:Hn; try discriminate Hl.
+  destruct (compile src []) as [[[b scF']| |]|] eqn:Hc; try discriminate Hl.
+  destruct (serialize_install 0 77 (N.of_nat (length (b_events b))) (N.of_nat (length (b_instrs b))) (serialize_bin b)) as [im| |] eqn:Him; try discriminate Hl.
+  destruct (serialize_changeprog 1 77 0 []) as [cp| |] eqn:Hcp; try discriminate Hl.
+  destruct (read_msg dp_init im) as [rc1 d1] eqn:Hr1.
+  destruct (conn_start d1 10 1448 []) as [d2 ev2] eqn:Hcs.
+  destruct (read_msg d2 cp) as [rc2 d3'] eqn:Hr2.
+  destruct ((rc1 =? 0)%Z && (rc2 =? 0)%Z) eqn:Hrc; [|discriminate Hl].
+  apply andb_true_iff in Hrc. destruct Hrc as [Hrc1 Hrc2]. apply Z.eqb_eq in Hrc1. apply Z.eqb_eq in Hrc2.
+  inversion Hl; subst d3' p tys scF'. clear Hl.
+  rewrite sev_map in *.
+  (* the compilation *)
+  pose proof (compile_inv _ _ _ _ _ _ Hu Hn Hc) as Hcp'.
+  destruct (compile_prog_inv _ _ _ _ Hcp') as (devs & eis & Hev & Hb). subst b. cbn [b_events b_instrs] in Him.
+  destruct (new_with_scope_inv _ _ _ Hn) as (reports & controls & sc1 & Hd1 & Hd2).
+  assert (Himg : exists image, serialize_bin (mkBin devs (def_instrs (sc_named sc0) ++ eis)) = Ok image).
+  { unfold serialize_install in Him. apply serialize_gen_ok in Him. destruct Him as (_ & b0 & Hb0 & _). eauto. }
+  destruct Himg as (image & Hser). rewrite Hser in Him.
+  (* the datapath *)
+  destruct (events_tile _ _ _ _ _ _ Hev) as (flags & bodies & Htile & Hlen & _).
+  assert (Hd1m : d1 = mkDp 1000 1000 [mkDProg 1 77 (map dexpr_of devs) (map dinstr_of (def_instrs (sc_named sc0) ++ eis)) 0] None).
+  { eapply load_machine; eauto. exists flags, bodies, (length (def_instrs (sc_named sc0))). split; [exact Htile|].
+    rewrite app_length, Hlen. lia. }
+  subst d1. cbn in Hcs. inversion Hcs; subst d2 ev2. clear Hcs.
+  assert (Hd3 : d3 = mkDp 1000 1000 [mkDProg 1 77 (map dexpr_of devs) (map dinstr_of (def_instrs (sc_named sc0) ++ eis)) 0] (Some conn_loaded)).
+  { exact (read_changeprog_77 (mkDProg 1 77 (map dexpr_of devs) (map dinstr_of (def_instrs (sc_named sc0) ++ eis)) 0) eq_refl eq_refl cp d3 rc2 Hcp Hr2 Hrc2). }
+  subst d3.
+  (* the simulation *)
+  set (defs := def_instrs (sc_named sc0)) in *.
+  pose proof (sinv_scF _ _ _ _ _ _ _ _ Hd1 Hd2 Hev Hwt Hcl Hleg) as SF.
+  pose proof (Hnodup_slots_F _ _ _ _ _ _ _ _ Hd1 Hd2 Hev Hwt Hcl Hleg) as F1.
+  pose proof (Hnodup_decls_F _ _ _ _ _ _ _ _ Hd1 Hd2 Hev Hwt Hcl Hleg) as F2.
+  pose proof (Hdecl_def_F _ _ _ _ _ _ _ _ _ Hd1 Hd2 Hev Hser Hwt Hcl Hleg) as F3.
+  pose proof (Hdef_decl_F _ _ _ _ _ _ _ _ _ Hd1 Hd2 Hev Hser Hwt Hcl Hleg) as F4.
+  pose proof (Hcl_F _ _ Hcl) as F5.
+  pose proof (Hlink_F _ _ _ _ _ _ _ _ _ Hd1 Hd2 Hev Hser Hwt Hcl Hleg) as F6.
+  pose proof (Htn_F _ _ _ _ _ _ _ _ _ Hd1 Hd2 Hev Hser Hwt Hcl Hleg) as F7.
+  pose proof (Hfirst_F _ _ _ _ _ _ _ _ _ Hd1 Hd2 Hev Hser Hwt Hcl Hleg) as F8.
+  pose proof (Hinit_bounded_F _ _ _ _ _ _ _ _ _ Hd1 Hd2 Hev Hser Hwt Hcl Hleg) as F9.
+  pose proof (Hnrep_F _ _ _ _ _ _ _ _ _ Hd1 Hd2 Hev Hser Hwt Hcl Hleg) as F10.
+  pose proof (Hrep_slots_F _ _ _ _ _ _ _ _ _ Hd1 Hd2 Hev Hser Hwt Hcl Hleg) as F11.
+  destruct (wt_clauses _ _ _ _ _ _ _ _ Hd1 Hd2 Hev Hwt Hcl Hleg) as (F12 & _ & _ & _ & F13).
+  pose proof (all_within _ _ _ _ Hser) as F14. fold defs in F14. apply Forall_app in F14. destruct F14 as [F14 F15].
+  assert (F16 : Forall (fun i => ImageFacts.reg_within (i_res i)) defs).
+  { rewrite Forall_forall in *. intros i Hi. destruct (F14 i Hi) as (W & _). exact W. }
+  assert (OKF : scf_ok (sc_named scF)).
+  { constructor; [apply (si_class _ SF)|apply (si_prims _ SF)|apply (si_inj _ SF)|intros x r; apply (sinv_micros scF x r SF)]. }
+  assert (OKI : scf_impl (sc_named scF)).
+  { pose proof (si_impl _ SF) as I. unfold scf_impl.
+    pose proof (I flag_n) as I0. pose proof (I cont_n) as I1. pose proof (I report_n) as I2. pose proof (I cwnd_n) as I4. pose proof (I rate_n) as I5.
+    vm_compute implicit_index in I0, I1, I2, I4, I5. auto. }
+  f_equal.
+  eapply (sim_run (sc_named scF) OKF OKI defs eis devs evs (map fst (decls_of_scope sc0))
+            (def_instrs_shape _) F1 F16 F2 F3 F4
+            (decl_tenv (map fst (decls_of_scope sc0)) (map snd (decls_of_scope sc0)) ++ builtin_tenv) sc0 scF 1 77
+            Hev (sext_refl _) F13 F5 F6 F7 F15 F8 ltac:(discriminate) F9 F10 F11 F12
+            scF eq_refl (fun x r => sinv_unique scF x r SF)
+            ins (mkDp 1000 1000 [mkDProg 1 77 (map dexpr_of devs) (map dinstr_of (defs ++ eis)) 0] (Some conn_loaded))
+            conn_loaded (mkS [] 1000) true 0 eq_refl).
+  - repeat split.
+  - reflexivity.
+  - reflexivity.
+  - reflexivity.
+  - apply Rv_initial.
+  - intros x. cbn. unfold W64. lia.
+  - exact Hins.
+Qed.
